@@ -156,6 +156,22 @@ func (p *Proof) modifiesEffects(callee *ssa.Function, m *Clause, cc *ssa.CallCom
 			}
 		}
 	case *ast.CallExpr:
+		if id, ok := n.Fun.(*ast.Ident); ok && id.Name == "maps" {
+			// resolved conservatively: all map cells
+			for k := range p.initHeap {
+				if strings.HasPrefix(k, "mapdom:") || strings.HasPrefix(k, "mapval:") {
+					e.heap[k] = true
+				}
+			}
+			e.allMaps = true
+			return
+		}
+		if id, ok := n.Fun.(*ast.Ident); ok && id.Name == "entries" {
+			if t := staticType(callee, n.Args[0]); t != nil {
+				fr.mapEffects(t, e)
+				return
+			}
+		}
 		if id, ok := n.Fun.(*ast.Ident); ok && id.Name == "elems" {
 			if t := staticType(callee, n.Args[0]); t != nil {
 				if sl, ok := t.Underlying().(*types.Slice); ok {
